@@ -158,8 +158,35 @@ func (c Cond) EdgeOrd(trueEdge bool) OrdSet {
 func NonNegative(v ssa.Value) bool { return nonNegative(v) }
 
 func nonNegative(v ssa.Value) bool {
+	return nonNegativeSeen(v, map[ssa.Value]bool{})
+}
+
+func nonNegativeSeen(v ssa.Value, seen map[ssa.Value]bool) bool {
 	if v == nil {
 		return false
+	}
+	if seen[v] {
+		return true // a cycle through an up-counting phi
+	}
+	seen[v] = true
+	// a counter: starts at a non-negative constant and only has non-negative
+	// constants added to it (`n := 0 … n++`)
+	switch x := v.(type) {
+	case *ssa.Phi:
+		for _, e := range x.Edges {
+			if !nonNegativeSeen(e, seen) {
+				return false
+			}
+		}
+		return len(x.Edges) > 0
+	case *ssa.Const:
+		if x.Value != nil && isInteger(x) {
+			return x.Int64() >= 0
+		}
+	case *ssa.BinOp:
+		if x.Op == token.ADD && isInteger(x) {
+			return nonNegativeSeen(x.X, seen) && nonNegativeSeen(x.Y, seen)
+		}
 	}
 	if b, ok := v.Type().Underlying().(*types.Basic); ok && b.Info()&types.IsUnsigned != 0 {
 		return true
